@@ -209,6 +209,11 @@ func (p *Source) emitLoop(ctx context.Context, st *srcStream, run int) {
 		}
 		p.mu.Unlock()
 		if err := srv.Send(pconnector.SourceRunResponse{Records: recs}); err != nil {
+			// the batch was logged as emitted but the engine never received it
+			p.mu.Lock()
+			p.next -= len(idxs)
+			p.W.Log.Add("EmitLost", "src", p.Cfg.ID, "idxs", idxs, "run", run)
+			p.mu.Unlock()
 			return
 		}
 		if failAfter {
@@ -281,6 +286,13 @@ func (p *Source) Ungate() {
 	p.Cfg.Gated = false
 	p.cond.Broadcast()
 	p.mu.Unlock()
+}
+
+// AllAcked reports whether every record of the source has been acknowledged to the plugin.
+func (p *Source) AllAcked() bool {
+	p.mu.Lock()
+	defer p.mu.Unlock()
+	return p.maxAcked >= p.Cfg.N
 }
 
 // CanRelease reports whether a further batch can be released (gated mode, records left, running).
